@@ -333,6 +333,31 @@ def w_case_fold_pairs(ops, rng, n):
         op_q(ops, 'www.%s.\u00e9.example' % up, 'www.%s.\u00e9.example' % lo)
 
 
+def w_multi_ace(ops, rng, n):
+    """several ACE labels in one non-ASCII domain: every ordered pair (and some triples) of labels from a pool of
+    fragment labels - valid and invalid alone, LTR / RTL, with virama / joiners / leading marks - each spelled as
+    xn--<Punycode>, followed by a non-ASCII label so that full processing runs; validity is PER LABEL (plus the
+    domain-wide Bidi rule): nothing of one label may leak into the validation of the next"""
+    pool = ['\u00e9', 'b\u00fccher', '\u05d0\u05d1', '\u0628\u0627', '\u0915\u094d', 'ab\u200d', '\u0915\u094d\u200d', '\u0301a', 'a\u0301',
+            '\u00df', '\uac00', '1\u0661', '\u0995\u09cb', '\u0995\u09c7\u09be']
+    aces = []
+    for lab in pool:
+        try:
+            aces.append(puny(lab))
+        except UnicodeError:
+            pass
+    tails = ['\u00fc', '\u05d0', 'com']
+    for a in aces:
+        for b in aces:
+            for t in tails[:2]:
+                op_a(ops, a + '.' + b + '.' + t)
+            op_a(ops, '\u00fc.' + a + '.' + b)
+    for _ in range(n):
+        labs = [rng.choice(aces) for _ in range(rng.choice([2, 3, 4]))]
+        labs.insert(rng.randrange(len(labs) + 1), rng.choice(tails))
+        op_a(ops, '.'.join(labs))
+
+
 def w_structured(ops, rng, n):
     for s in structured_strings():
         op_a(ops, s)
